@@ -173,6 +173,8 @@ def main(tier: str) -> int:
     # ---- the TRANSLATED elementwise functions (TFV/Generated/Src/Bench_*_f.lean, read through TFV.Model.NpQ) evaluated by Lean on
     #      populations of small dyadic numbers (every float operation on them is exact) against the real functions
     import subprocess
+    import re as _re0
+    _re_idx = _re0.compile(r"\((\d+), (\d+)\)")
     from fractions import Fraction as _Fr
     kcases = []
     for _ in range(40 if tier == "quick" else 300):
@@ -263,6 +265,45 @@ def main(tier: str) -> int:
             chk.count("np_kernel_" + kname)
             same = (real is None and vals is None) or (real is not None and vals is not None and len(real) == len(vals) and all(C.close(a, b, 1e-9, 1e-9) for a, b in zip(real, vals)))
             (chk.agree("np_kernel:" + kname) if same else chk.disagree("np_kernel:" + kname, {"input": {"function": kname, "population": Xk.tolist(), "shift_and_bias": kshift.get(ci)}, "impl": real, "model": g}))
+
+    # ---- the TRANSLATED column pairing of ExpandedScaffers_F6.f / F8F2.f against the pairs the real methods hand to their pair functions
+    #      (observed by replacing the pair function of an instance with a recorder and evaluating the row 0, 1, ..., D-1)
+    idx_dims = list(range(1, 13)) + ([30, 50] if tier == "thorough" else [30])
+    ilines = ["import TFV.Generated.Src.Bench_Scaffer_indexes", "import TFV.Generated.Src.Bench_F8F2_indexes", "open TFV TFV.Generated.Src"]
+    for D in idx_dims:
+        ilines.append("#eval IO.println (toString (NpQ.pairsOf (Bench_Scaffer_indexes %d)))" % D)
+        ilines.append("#eval IO.println (toString (NpQ.pairsOf (Bench_F8F2_indexes %d)))" % D)
+    iaudit = C.LEAN / "TFV" / "Audit" / "C20_idx.lean"
+    iaudit.write_text("\n".join(ilines) + "\n")
+    with C.LeanLock():
+        ipr = subprocess.run(["lake", "env", "lean", str(iaudit.relative_to(C.LEAN))], cwd=C.LEAN, capture_output=True, text=True, timeout=900)
+    igot = [l.strip() for l in ipr.stdout.splitlines() if l.strip()]
+    chk.obligation("the translated column pairings evaluate (lake env lean TFV/Audit/C20_idx.lean)", ipr.returncode == 0 and len(igot) == 2 * len(idx_dims), (ipr.stdout + ipr.stderr)[-600:])
+    if ipr.returncode == 0 and len(igot) == 2 * len(idx_dims):
+        def _real_pairs(which, D):
+            seen = []
+
+            def rec(v):
+                seen.append(np.asarray(v).copy())
+                return np.zeros(len(v))
+            row = np.arange(D, dtype=np.float64).reshape(1, D)
+            if which == "Scaffer":
+                inst = OP.ExpandedScaffers_F6()
+                inst.Scaffes_F6 = rec
+            else:
+                inst = OP.F8F2()
+                inst.rosenbrock_f = rec
+            inst.f(row)
+            return [(int(a), int(b)) for a, b in seen[0]]
+        for k, D in enumerate(idx_dims):
+            for j, which in enumerate(("Scaffer", "F8F2")):
+                try:
+                    real = _real_pairs(which, D)
+                except Exception:
+                    real = None
+                got = [(int(a), int(b)) for a, b in _re_idx.findall(igot[2 * k + j])]
+                chk.count("np_kernel_pairing_" + which)
+                (chk.agree("np_kernel:pairing") if real == got else chk.disagree("np_kernel:pairing", {"input": {"method": which, "D": D}, "impl": real, "model": igot[2 * k + j]}))
 
     try:
         outs = C.lean_driver([json.dumps(o) for o in ops])
